@@ -110,14 +110,21 @@ for pid in ids:
             "nobody could observe is useless here - but re-read the statement sentence by sentence and make sure none of them becomes false; "
             "when in doubt whether the statement pins something, do not touch it. Do not change documented signatures, and do not make "
             "anything slower by more than a small factor.\n\n"
-            "This is a SECOND benign round: the property-preserving changes listed first below were already made by an earlier adversary "
+            "This is a LATER benign round: the property-preserving changes listed first below were already made by an earlier adversary "
             "- do NOT repeat them or close variants; pick OTHER functions / mechanisms of the statement, and be bolder where the statement "
             "allows it: vectorised (numpy) re-implementations whose results differ by round-off or by the order / container / integer type "
             "of the output, correctly invalidated caches that make second calls return the SAME object as the first (or deliberately fresh "
             "objects where the same one came back), different but valid element numberings and starting points, valid outputs chosen by "
             "another rule when several are allowed, additional attributes left on the mesh, stricter or more lenient handling of inputs "
             "OUTSIDE the stated domain (more informative exceptions, accepting what was rejected only where the statement does not say it "
-            "is rejected), different results for degenerate inputs the statement excludes.\n\n"
+            "is rejected), different results for degenerate inputs the statement excludes. Further directions for this round: STRICTER "
+            "argument validation for forms no docstring names (raise TypeError / ValueError for generators, iterators, sets or ranges where "
+            "a list is documented, for ids counted from the end, for a single container where unpacked integers are documented, for "
+            "numpy.bool_ / 0-1 flags ONLY IF the docstring says bool - think twice there), new OPTIONAL keyword parameters appended at the "
+            "END of a signature, different line ends / number formatting / comment lines in files the library WRITES where the statement "
+            "pins only what is read back, randomised algorithms that take more (but finitely many) steps, e.g. a few extra pivot retries, "
+            "lazily built results rebuilt on every access, results returned as fresh copies instead of internal objects, in-place edits "
+            "of internal caches replaced by rebuilt ones.\n\n"
             "Benign changes already made (do not repeat), then breaking changes made earlier (for your information on which code is "
             "involved):\n")
         demo = ("a small standalone program that exercises the changed behaviour, CHECKS THE PROPERTY's relevant sentences on the answers it "
